@@ -195,11 +195,12 @@ theorem zero_def : (0 : XRat) = .fin 0 := rfl
 theorem add_def (a b : XRat) : a + b = XRat.add a b := rfl
 theorem div_def (a b : XRat) : a / b = XRat.div a b := rfl
 
-instance : AddMonoid XRat where
+instance : AddCommMonoid XRat where
   add_assoc a b c := by
     cases a <;> cases b <;> cases c <;> simp [add_def, XRat.add, Rat.add_assoc]
   zero_add a := by cases a <;> simp [add_def, zero_def, XRat.add]
   add_zero a := by cases a <;> simp [add_def, zero_def, XRat.add]
+  add_comm a b := by cases a <;> cases b <;> simp [add_def, XRat.add, Rat.add_comm]
   nsmul := nsmulRec
 
 /-- IEEE: `0/0` is NaN. -/
@@ -227,5 +228,29 @@ theorem fin_div_fin_ne_zero (p q : Rat) (hp : p ≠ 0) : (.fin p : XRat) / .fin 
 theorem nan_ne_zero : (XRat.nan : XRat) ≠ 0 := by simp [zero_def]
 
 end XRat
+
+/-- `S / S2` at the extended rationals with finite stored values: no hypothesis is left. -/
+theorem div_sparse_xrat (A B : Sparse XRat) (hA : A.WF) (hB : B.WF) (hs : A.shape = B.shape)
+    (hfa : ∀ x ∈ A.vals, ∃ q : Rat, x = .fin q) (hfb : ∀ y ∈ B.vals, ∃ q : Rat, y = .fin q) :
+    ∃ R, div .nan A (.sparse B) = .ok R ∧ R.WF ∧ R.shape = A.shape ∧
+      ∀ i, InBounds A.shape i → R.get i = A.get i / B.get i := by
+  refine div_sparse_spec .nan A B hA hB hs XRat.zero_div_zero ?_ XRat.nan_ne_zero ?_
+  · intro y hy
+    obtain ⟨q, rfl⟩ := hfb y hy
+    have : q ≠ 0 := fun h => by
+      have := hB.nz _ hy
+      rw [h] at this
+      exact (by simpa using this : ¬ XRat.fin 0 = 0) XRat.zero_def.symm
+    exact XRat.zero_div_fin q this
+  · intro x hx y hy
+    obtain ⟨p, rfl⟩ := hfa x hx
+    have hp : p ≠ 0 := fun h => by
+      have := hA.nz _ hx
+      rw [h] at this
+      exact (by simpa using this : ¬ XRat.fin 0 = 0) XRat.zero_def.symm
+    rcases hy with hy | hy
+    · obtain ⟨q, rfl⟩ := hfb y hy
+      exact XRat.fin_div_fin_ne_zero p q hp
+    · rw [hy]; exact XRat.fin_div_fin_ne_zero p 0 hp
 
 end Pyttb
